@@ -65,6 +65,12 @@ impl ConnMap {
     pub fn get_mut(&mut self, k: &ConnectionId) -> (r: Option<&mut ConnectionInfo>)
         ensures final(self)@ == old(self)@, r.is_some() == old(self)@.contains(*k)
     { unimplemented!() }
+    #[verifier::external_body]
+    pub fn len(&self) -> (n: usize) ensures n == self@.len() { unimplemented!() }
+    #[verifier::external_body]
+    pub fn contains_key(&self, k: &ConnectionId) -> (b: bool) ensures b == self@.contains(*k) { unimplemented!() }
+    #[verifier::external_body]
+    pub fn remove(&mut self, k: &ConnectionId) -> (o: Option<ConnectionInfo>) ensures final(self)@ == old(self)@.remove(*k), o.is_some() == old(self)@.contains(*k) { unimplemented!() }
     // E8: `retain(|id, _| *id != connection_id)` keeps every key but `connection_id`
     #[verifier::external_body]
     pub fn vx_retain_ne(&mut self, k: ConnectionId)
@@ -89,6 +95,8 @@ impl TagSet {
     pub fn remove(&mut self, t: &u32) -> (b: bool)
         ensures final(self)@ == old(self)@.remove(*t), b == old(self)@.contains(*t)
     { unimplemented!() }
+    #[verifier::external_body]
+    pub fn len(&self) -> (n: usize) ensures n == self@.len() { unimplemented!() }
 }
 
 #[derive(Clone, Copy, PartialEq, Eq, Structural)]
@@ -141,6 +149,14 @@ impl PeerMap {
         ensures
             !old(self)@.contains_key(*k) ==> r.is_none() && final(self)@ == old(self)@,
             old(self)@.contains_key(*k) ==> r.is_some() && *r.unwrap() == old(self)@[*k] && final(self)@ == old(self)@.insert(*k, *final(r.unwrap())),
+    { unimplemented!() }
+    #[verifier::external_body]
+    pub fn contains_key(&self, k: &PeerId) -> (b: bool) ensures b == self@.contains_key(*k) { unimplemented!() }
+    #[verifier::external_body]
+    pub fn len(&self) -> (n: usize) ensures n == self@.dom().len() { unimplemented!() }
+    #[verifier::external_body]
+    pub fn remove(&mut self, k: &PeerId) -> (o: Option<Peer>)
+        ensures final(self)@ == old(self)@.remove(*k), o.is_some() == old(self)@.contains_key(*k), o.is_some() ==> o.unwrap() == old(self)@[*k]
     { unimplemented!() }
     #[verifier::external_body]
     pub fn entry(&mut self, k: PeerId) -> (e: Entry<'_>)
@@ -208,6 +224,12 @@ impl Counter {
             !old(self)@.contains_key(*k) ==> r.is_none() && final(self)@ == old(self)@,
             old(self)@.contains_key(*k) ==> r.is_some() && *r.unwrap() == old(self)@[*k] && final(self)@ == old(self)@.insert(*k, *final(r.unwrap())),
     { unimplemented!() }
+    #[verifier::external_body]
+    pub fn get(&self, k: &u32) -> (r: Option<&usize>)
+        ensures r.is_some() == self@.contains_key(*k), r.is_some() ==> *r.unwrap() == self@[*k]
+    { unimplemented!() }
+    #[verifier::external_body]
+    pub fn contains_key(&self, k: &u32) -> (b: bool) ensures b == self@.contains_key(*k) { unimplemented!() }
     // `.get(&tag).copied().unwrap_or(0)`
     #[verifier::external_body]
     pub fn vx_get_or_zero(&self, k: &u32) -> (r: usize)
